@@ -336,6 +336,22 @@ fn reply_family(ctx: &Ctx, any_order: bool, family: &'static str, rule: &'static
 
 const A_REPLY: &str = "reply family domain: 1..3 handler names; per name success-only / error-only / both via two methods / always; methods shared between names via handlers=[..]; all seven data markers; raw / 1..3 typed payload values; generic and custom-typed contracts; reply handlers return the contract's error type and payload types do not mention contract type parameters (both required for such programs to compile)";
 
+fn e1_tape(
+    ctx: &Ctx,
+    salt: &str,
+    cases: u32,
+    f: fn(&mut crate::expander::Expander, &Vec<u32>, &mut crate::e1::Stats) -> Result<(), crate::e1::Bad>,
+    rule: &str,
+    assumptions: &[&str],
+) -> Outcome {
+    let mut out = Outcome { rule: rule.to_string(), assumptions: assumptions.iter().map(|s| s.to_string()).collect(), ..Default::default() };
+    match crate::e1::expander_exe() {
+        Ok(exe) => crate::e1props::run_tape_prop(ctx, &exe, salt, cases, f, &mut out),
+        Err(e) => out.inconclusive = Some(e),
+    }
+    out
+}
+
 pub fn run(ctx: &Ctx) -> i32 {
     let out = match ctx.prop.as_str() {
         "C01" => msg_family(ctx, false, "fam_msg_s1",
@@ -365,6 +381,21 @@ pub fn run(ctx: &Ctx) -> i32 {
         "C10" => msg_family(ctx, true, "fam_msg_s2",
             "for every exec / query method of the contract and of each interface (handle typed by the concrete contract and by `dyn Interface<..>`): `cases` tuples (argument values, address, funds set/unset); Remote::executor()[.with_funds]..build() must equal WasmMsg::Execute{addr, funds, body} and the body, fed to the target's generated execute entry point, must run that same method with equal arguments (C02 call-log oracle); the query helper must issue exactly one WasmQuery::Smart to the handle's address whose body the query entry point routes to the same method, and return the decoded handler response; InstantiateBuilder with random label/admin/funds/salt options is compared field by field and its body fed to the instantiate entry point. Non-trivial = method with arguments and non-empty funds, an interface-typed (`dyn`) handle, or >=2 builder options.",
             &[A_ECHO, A_SERDE, A_NATIVE, A_DOMAIN, "Remote::update_admin / clear_admin are covered by the C20 runtime check"]),
+        "C06" => {
+            let mut out = Outcome { rule: "(a) exhaustive over all 1024 configurations (2^6 override subsets x migrate declared? x reply declared? x replies feature x generic?) crossed with random fam_msg base programs: the set of fn items in the expanded `pub mod entry_points` equals {instantiate, execute, query, sudo} + declared migrate/reply minus the overridden kinds, each once, and each entry point takes the message type of its own kind. Non-trivial = configuration with >=1 override or a migrate/reply handler.".into(), ..Default::default() };
+            out.assumptions = vec!["token-level check on in-process expansions (engine E1); forwarding of calls through emitted entry points is exercised by C02/C04/C07/C10 on compiled programs".into(), A_DOMAIN.into()];
+            match crate::e1::expander_exe() {
+                Ok(exe) => crate::e1props::c06a(ctx, &exe, &mut out),
+                Err(e) => out.inconclusive = Some(e),
+            }
+            out
+        }
+        "C15" => e1_tape(ctx, "generics", if ctx.quick() { 2000 } else { 40000 }, crate::e1props::c15a_case,
+            "(a) generic fam_msg programs (1..3 type parameters; interfaces with 0..2 associated types); parameters assigned to handler arguments directly, nested (Vec<Option<T>>, (T,u32), Box<T>..), only in a query response, or nowhere; optional bound relating two parameters; oracle from the model: for every generated message type the parameter list equals (as a duplicate-free set) the parameters used by the kind's handlers, no bound on its inherent impl mentions another parameter, struct messages carry exactly the surviving predicates, ContractApi aliases name the same lists; same for interface message types over associated types. Non-trivial = a parameter used only nested / only in a response / unused by some kind, or a two-parameter bound.",
+            &["token-level check on in-process expansions (engine E1); compiled generic programs are exercised by C01/C02 (fam_msg has generic programs)", A_DOMAIN, "parameter order inside a generated type is not judged (the statement says `each once`)"]),
+        "C17" => e1_tape(ctx, "placement", if ctx.quick() { 2000 } else { 40000 }, crate::e1props::c17a_case,
+            "(a) fam_msg programs with inert marker attributes #[doc = \"vp-N\"] forwarded by sv::msg_attr(kind, ..) (several kinds per program), sv::attr(..) (per handler) and written on handler arguments; oracle: in the parsed expansions of all macros of the program every marker occurs exactly once, on the generated type of that kind / that handler's variant / that argument's field, and nowhere else (proxies, constructors, wrappers, re-emitted input included). Non-trivial = program with >=2 markers on >=2 different kinds of items.",
+            &["token-level check on in-process expansions (engine E1); the serde effect of forwarded field attributes is exercised on compiled programs by C03 (missing-field documents with #[serde(default)] arguments)", A_DOMAIN]),
         "C16" => msg_family(ctx, true, "fam_msg_s2",
             "for every generated program and every part: QueryResponses::response_schemas() is Ok, its key set equals the wire names of the part's queries (plus at most one unsendable placeholder), each entry equals schema_for!(declared response type) computed from svrt's own types; the contract-level table equals the union of the parts; schema_for!(Contract{Exec,Query,Sudo}Msg) is an anyOf whose members resolve to the parts' schemas. Non-trivial = a part with >=2 distinct response types or a part-spanning union.",
             &[A_NATIVE, A_DOMAIN, "response types: three plain structs, generic parameter, associated type, explicit resp= behind a result alias"]),
